@@ -16,11 +16,14 @@
 EXTENDS PoolKey, Json, IOUtils, TLCExt
 
 Traces == JsonDeserialize(IOEnv.TRACE_FILE)
+\* the per-keyword value counts written by the harness from the real objects (cfg: NVof <- TableNV)
+TableNV == JsonDeserialize(IOEnv.C18_TABLE).nv
 
 \* sparse sequences of <<keyword, value>> -> total functions
 Has(ps, kw) == \E i \in 1..Len(ps) : ps[i][1] = kw
 Get(ps, kw) == ps[CHOOSE i \in 1..Len(ps) : ps[i][1] = kw][2]
-Dense(ps, dom, d) == [kw \in dom |-> IF Has(ps, kw) THEN Get(ps, kw) ELSE d]
+Dense(ps, dom, d) == LET present == {ps[i][1] : i \in 1..Len(ps)} IN
+                     TLCEval([kw \in dom |-> IF kw \in present THEN Get(ps, kw) ELSE d])
 ReqOf(r) == [scheme |-> r.scheme, host |-> r.host, port |-> r.port, via |-> r.via, ov |-> Dense(r.ov, Settings, NOOV)]
 ConfOf(c) == [scheme |-> c.scheme, host |-> c.host, port |-> c.port, s |-> Dense(c.s, KeySettings, 0)]
 
